@@ -64,6 +64,7 @@ class AV:
     refs: frozenset = frozenset()  # heap nodes
     uniq: object = None  # token of the iteration that yields this value as a distinct key
     look: object = None  # (dict nodes, key text): result of `d.get(k)` - None iff the key is absent
+    src: frozenset = frozenset()  # (dict node, key text): the value is (built from) what the dict holds under that key
 
     @property
     def bottom(self) -> bool:
@@ -86,7 +87,7 @@ class AV:
         return Const(None) in self.consts
 
     def plain(self) -> "AV":
-        return replace(self, uniq=None, look=None) if (self.uniq is not None or self.look is not None) else self
+        return replace(self, uniq=None, look=None, src=frozenset()) if (self.uniq is not None or self.look is not None or self.src) else self
 
 
 BOT = AV()
@@ -137,7 +138,7 @@ def join(*avs: AV) -> AV:
         cs, tp = frozenset(c for c in cs if c.v is None), True
     u = avs[0].uniq if all(a.uniq == avs[0].uniq for a in avs) else None
     lk = avs[0].look if all(a.look == avs[0].look for a in avs) else None
-    return AV(cs, tp, frozenset().union(*[a.prov for a in avs]), frozenset().union(*[a.refs for a in avs]), u, lk)
+    return AV(cs, tp, frozenset().union(*[a.prov for a in avs]), frozenset().union(*[a.refs for a in avs]), u, lk, frozenset().union(*[a.src for a in avs]))
 
 
 # ---------------------------------------------------------------------------------------------------------------- nodes
@@ -1093,6 +1094,17 @@ class Interp:
                 self.recording = rec
             if rv.refs & dicts:
                 return True
+        # a value built from what the dict holds under this key (`old = d.get(k, set()); d[k] = old | new`)
+        rec = self.recording
+        self.recording = False
+        try:
+            sv = self.ev(value, dict(env), fr)
+        except _Dead:
+            sv = BOT
+        finally:
+            self.recording = rec
+        if any(dn in dicts and kt == key_text for dn, kt in sv.src):
+            return True
         # a local that was read from the dict at this key (`known = d.get(k)`)
         for n in ast.walk(value):
             if isinstance(n, ast.Name) and n.id in env and env[n.id].look is not None:
@@ -1367,12 +1379,15 @@ class Interp:
 
     def _display(self, e, env, fr, kind):
         s = self.seq(fr, e, kind)
+        src: frozenset = frozenset()
         for x in e.elts:
             if isinstance(x, ast.Starred):
-                self.grow_elem(s, self.iterate(self.ev(x.value, env, fr), None, fr, None))
+                sv = self.ev(x.value, env, fr)
+                src |= sv.src
+                self.grow_elem(s, self.iterate(sv, None, fr, None))
             else:
                 self.grow_elem(s, self.ev(x, env, fr))
-        return ref(s)
+        return replace(ref(s), src=src)
 
     def e_List(self, e, env, fr):
         if isinstance(getattr(e, "ctx", None), ast.Load) and e.elts and not any(isinstance(x, ast.Starred) for x in e.elts) and len(e.elts) <= 8:
@@ -1537,7 +1552,8 @@ class Interp:
                 outs.append(ref(s))
         if not outs:
             return self.unknown_value(f"operator {type(op).__name__}", a, b)
-        return join(*outs)
+        res = join(*outs)
+        return replace(res, src=a.src | b.src) if (a.src or b.src) else res
 
     def e_Lambda(self, e, env, fr):
         fi = getattr(e, "_func", None)
@@ -1665,6 +1681,8 @@ class Interp:
                 outs.append(self.unknown_value(f"iteration over {n.kind}", ref(n)))
                 unique = False
         res = join(*outs)
+        if res.src:
+            res = replace(res, src=frozenset())
         if token is not None and unique and not res.bottom:
             res = replace(res, uniq=token)
         return res
@@ -1742,7 +1760,7 @@ class Interp:
                 if n.fields is not None and ck is not None and ck.v in n.fields:
                     outs.append(n.fields[ck.v])
                 else:
-                    outs.append(via(n.v))
+                    outs.append(replace(via(n.v), src=frozenset({(n, key_text)})))
                 if n.factory is not None:
                     made = self.call_value(n.factory, [], {}, fr, e, tag=("factory", n.key))
                     self.grow_dict(n, k, made)
@@ -2251,7 +2269,9 @@ class Interp:
         # ---------------------------------------------------------------- containers
         kind, _, meth = name.partition(".")
         if kind in ("list", "set", "frozenset", "tuple", "iter") and recv is not None:
-            return self.seq_method([x for x in recv.refs if isinstance(x, Seq)], meth, args, kwargs, fr, e, star)
+            r = self.seq_method([x for x in recv.refs if isinstance(x, Seq)], meth, args, kwargs, fr, e, star)
+            srcs = recv.src.union(*[a.src for a in args]) if meth in ("union", "copy", "intersection", "difference", "symmetric_difference", "__or__", "__add__") else frozenset()
+            return replace(r, src=srcs) if srcs else r
         if kind == "dict" and recv is not None:
             return self.dict_method([x for x in recv.refs if isinstance(x, Dict)], meth, args, kwargs, fr, e, arg_exprs)
         if kind in ("keys", "values", "items", "pair") and recv is not None:
@@ -2386,7 +2406,7 @@ class Interp:
                 ck = a0.single()
                 v = d.fields[ck.v] if d.fields is not None and ck is not None and ck.v in d.fields else via(d.v)
                 dflt = args[1] if len(args) > 1 else kwargs.get("default", NONE)
-                r = join(v.plain(), dflt.plain())
+                r = replace(join(v.plain(), dflt.plain()), src=frozenset((x, ktxt) for x in dset))
                 if dflt == NONE:
                     r = replace(r, look=(dset, ktxt))
                 outs.append(r)
@@ -2394,7 +2414,7 @@ class Interp:
                 dflt = args[1] if len(args) > 1 else NONE
                 self.grow_dict(d, a0, dflt)
                 self.event("setdefault", dset, a0, ktxt, dflt, fr, e)
-                outs.append(via(d.v))
+                outs.append(replace(via(d.v), src=frozenset((x, ktxt) for x in dset)))
             elif meth in ("keys", "values", "items"):
                 outs.append(ref(self.node((meth, d.key), lambda d=d: View((meth, d.key), d, meth))))
             elif meth == "update":
@@ -2414,7 +2434,7 @@ class Interp:
             elif meth == "pop":
                 if len(args) < 2:
                     self.raise_("builtins.KeyError", "may", ("absent", dset, ktxt))
-                outs.append(join(via(d.v), args[1] if len(args) > 1 else BOT))
+                outs.append(replace(join(via(d.v), args[1] if len(args) > 1 else BOT), src=frozenset((x, ktxt) for x in dset)))
             elif meth == "popitem":
                 t = self.seq(fr, e, "tuple", "popitem")
                 t.items = [d.k, via(d.v)]
@@ -2441,7 +2461,7 @@ class Interp:
             s = self.seq(fr, e, kind, name)
             for a in args[:1]:
                 self.grow_elem(s, self.iterate(a, None, fr, None))
-            return ref(s)
+            return replace(ref(s), src=a0.src)
         if name == "dict":
             d = self.dict_(fr, e, "dict()")
             for o in a0.refs:
@@ -2579,7 +2599,7 @@ class Interp:
     def run(self, fi: FuncInfo, args: list[AV]) -> tuple[AV, bool]:
         """Interprets `fi(*args)` until the heap is stable.  Returns (returned value, some path returns normally)."""
         last = None
-        for _ in range(8):
+        for rnd in range(25):
             self.raised = []
             self._collectors = []
             before = self.version
@@ -2591,6 +2611,8 @@ class Interp:
                 last = (BOT, False)
             if self.version == before:
                 break
+        else:
+            self.unknown_value("the abstract heap does not stabilise")
         return last
 
 
